@@ -77,6 +77,16 @@ def stopRec (s : TState) (bStopOk : Bool) : TState × List TObs × Bool :=
   if s.recording then ({ s with recording := false }, [TObs.bStop bStopOk], bStopOk)
   else (s, [], true)
 
+/-- the tail of `WriteFrame` once recording: take one token and forward the frame, or
+notify and stop (`pre` = observations already made during this call) -/
+def takeAndWrite (s : TState) (tick id : Nat) (bWriteOk bStopOk : Bool) (pre : List TObs) : TState × List TObs :=
+  let t := s.bucket.take1 tick
+  let s := { s with bucket := t.1 }
+  if t.2 > 0 then (s, pre ++ [TObs.bWrite id bWriteOk, TObs.ret bWriteOk])
+  else
+    let r := s.stopRec bStopOk
+    (r.1, pre ++ [TObs.throttled] ++ r.2.1 ++ [TObs.ret r.2.2])
+
 def step (s : TState) : TReq → TState × List TObs
   | .start tick tag bStartOk =>
     let r := s.maybeStart tick tag bStartOk
@@ -88,24 +98,13 @@ def step (s : TState) : TReq → TState × List TObs
     let r := s.stopRec bStopOk
     (r.1, r.2.1 ++ [TObs.ret r.2.2])
   | .write tick id bStartOk bWriteOk bStopOk =>
-    -- not recording: try to (re)start with the stored background
-    let r0 : TState × List TObs × Option Bool :=     -- Option: some = early return value
-      if !s.recording then
-        let r := s.maybeStart tick s.tag bStartOk
-        if !r.2.2 then (r.1, r.2.1, some false)
-        else if !r.1.recording then (r.1, r.2.1, some true)
-        else (r.1, r.2.1, none)
-      else (s, [], none)
-    match r0.2.2 with
-    | some v => (r0.1, r0.2.1 ++ [TObs.ret v])
-    | none =>
-      let s := r0.1
-      let t := s.bucket.take1 tick
-      let s := { s with bucket := t.1 }
-      if t.2 > 0 then (s, r0.2.1 ++ [TObs.bWrite id bWriteOk, TObs.ret bWriteOk])
-      else
-        let r := s.stopRec bStopOk
-        (r.1, r0.2.1 ++ [TObs.throttled] ++ r.2.1 ++ [TObs.ret r.2.2])
+    if s.recording then s.takeAndWrite tick id bWriteOk bStopOk []
+    else
+      -- not recording: try to (re)start with the stored background
+      let r := s.maybeStart tick s.tag bStartOk
+      if !r.2.2 then (r.1, r.2.1 ++ [TObs.ret false])
+      else if !r.1.recording then (r.1, r.2.1 ++ [TObs.ret true])
+      else r.1.takeAndWrite tick id bWriteOk bStopOk r.2.1
 
 end TState
 end TR
